@@ -8,7 +8,10 @@ TECHNIQUE = ('differential testing against Python set algebra: Hypothesis-genera
              'TreeSet, Bucket, BTree with tiny node sizes, lists/tuples/generators/sets - unsorted, with '
              'duplicates - and None) with explicit overlap patterns; every applicable entry point (module '
              'functions, | & - ^, |= &= -= ^=) is evaluated on each pair and checked for contents, '
-             'order, uniqueness, result kind, freshness of the result and unchanged operands')
+             'order, uniqueness, result kind, freshness of the result and unchanged operands; plus a bounded-'
+             'exhaustive part per (family, implementation) slice: all pairs of subsets of a 4-key (thorough: 5-key) '
+             'universe x all 16 kind pairs, and every BTrees operand x every sequence (all orders and repetitions) '
+             'of length <= 4 (5) over that universe as list / generator on either side')
 RULE = ('a case is an operand pair (family, implementation, kinds, key lists); every applicable '
         'operation on it is one evaluation.  Non-trivial: both operands non-empty with common and '
         'distinct keys, or a plain iterable that is unsorted or has duplicates.  distinct_nontrivial '
@@ -23,8 +26,20 @@ BT = ('Set', 'TreeSet', 'Bucket', 'BTree')
 
 def shards(tier, seed):
     n = {'quick': 300, 'thorough': 7000}[tier]
-    return [{'n': n, 'fams': F.rotate(F.FAMILIES, seed * 3 + i * 4, 6 if tier == 'quick' else 22)}
-            for i in range(16)]
+    out = [{'n': n, 'fams': F.rotate(F.FAMILIES, seed * 3 + i * 4, 6 if tier == 'quick' else 22)}
+           for i in range(16)]
+    # bounded-exhaustive part: every shard also enumerates one (family, implementation) slice completely
+    # (quick: 16 slices rotating with the seed; thorough: all 44, universe one key larger)
+    slices = [(f, impl) for f in F.rotate(F.FAMILIES, seed * 5, 22) for impl in ('c', 'py')]
+    if tier == 'quick':
+        # always one object-key family and fs among them; the rest rotates
+        slices = [s for s in slices if s[0] in ('OO', 'fs')] + [s for s in slices if s[0] not in ('OO', 'fs')]
+        for i, sh in enumerate(out):
+            sh['enum'] = [{'fam': slices[i][0], 'impl': slices[i][1], 'u': 4, 'seqlen': 4}]
+    else:
+        for i, sh in enumerate(out):
+            sh['enum'] = [{'fam': f, 'impl': impl, 'u': 5, 'seqlen': 5} for f, impl in slices[i::16]]
+    return out
 
 
 def _cases(shard):
@@ -57,6 +72,9 @@ def _cases(shard):
             b = []
         kinds = st.sampled_from(list(BT) * 2 + list(PLAIN) + ['none'])
         ak, bk = draw(kinds), draw(kinds)
+        if draw(st.integers(0, 7)) == 0:
+            # the in-place operators only exist on sets: make (set, plain sequence) pairs frequent
+            ak, bk = draw(st.sampled_from(['Set', 'TreeSet'])), draw(st.sampled_from(['list', 'tuple', 'gen']))
 
         def plainify(keys, kind):
             keys = list(keys)
@@ -68,6 +86,19 @@ def _cases(shard):
             return list(keys)
         a = plainify(a, ak)
         b = plainify(b, bk)
+
+        def multiset(mine, other):
+            # a plain sequence over (keys of the other operand + a few strangers) with free repetition: the number
+            # of elements that hit the other operand, counted with repetitions, ranges over 0..2*len(other)+2,
+            # so it also coincides with len(other) while some key of the other operand is missing
+            pool = list(other) + [x for x in mine if repr(x) not in set(map(repr, other))][:3]
+            if not pool:
+                return mine
+            return draw(st.lists(st.sampled_from(pool), max_size=2 * len(other) + 2))
+        if bk in ('list', 'tuple', 'gen') and ak in BT and draw(st.integers(0, 2)) == 0:
+            b = multiset(b, a)
+        elif ak in ('list', 'tuple', 'gen') and bk in BT and draw(st.integers(0, 2)) == 0:
+            a = multiset(a, b)
         sizes = draw(st.sampled_from([[2, 2], [3, 2], [3, 3], [4, 3], None]))
         return {'fam': fam, 'impl': impl, 'ktype': ktype, 'sizes': sizes,
                 'a': {'kind': ak, 'keys': a}, 'b': {'kind': bk, 'keys': b}}
@@ -75,8 +106,52 @@ def _cases(shard):
     return case()
 
 
+def _universe(fam, u):
+    """u key tokens of the family, ascending, spread over the domain: the smallest (None for object keys, the
+    type's minimum otherwise), neighbours in the dense middle, the largest"""
+    dom = F.domain(fam, 'int')
+    mid = len(dom) // 2
+    picks = [dom[0]] + dom[mid:mid + u - 2] + [dom[-1]]
+    return picks[:u]
+
+
+def enum_cases(spec):
+    """Bounded-exhaustive operand pairs over a u-key universe U (node sizes 2/2, so 3 keys are already two leaves):
+    (i) every pair of subsets of U x every pair of BTrees kinds; (ii) every BTrees kind holding a subset of U[:-1]
+    x EVERY sequence over U of length <= seqlen (all orders, all repetitions) as list and as generator, on either
+    side.  Each pair is then put through every applicable entry point by run_case."""
+    import itertools
+    fam, impl, u, seqlen = spec['fam'], spec['impl'], spec['u'], spec['seqlen']
+    U = _universe(fam, u)
+    subsets = [[U[i] for i in range(u) if m >> i & 1] for m in range(1 << u)]
+    base = {'fam': fam, 'impl': impl, 'ktype': 'int', 'sizes': [2, 2]}
+    for a in subsets:
+        for b in subsets:
+            for ak in BT:
+                for bk in BT:
+                    yield dict(base, a={'kind': ak, 'keys': a}, b={'kind': bk, 'keys': b})
+    small = [s for s in subsets if U[-1] not in s]
+    seqs = [list(t) for n in range(seqlen + 1) for t in itertools.product(U, repeat=n)]
+    for a in small:
+        for ak in BT:
+            for q in seqs:
+                for pk in ('list', 'gen'):
+                    yield dict(base, a={'kind': ak, 'keys': a}, b={'kind': pk, 'keys': q})
+                if ak in ('Set', 'BTree'):
+                    yield dict(base, a={'kind': 'list', 'keys': q}, b={'kind': ak, 'keys': a})
+
+
 def run_shard(shard, ctx):
-    ctx.hyp(_cases(shard), run_case, shard['n'], 'pairs')
+    if not ctx.hyp(_cases(shard), run_case, shard['n'], 'pairs'):
+        return
+    for spec in shard.get('enum', ()):
+        n = 0
+        for case in enum_cases(spec):
+            n += 1
+            if not ctx.run_case(case, run_case):
+                return
+        ctx.count('enumerated_pairs', n)
+        ctx.count('enumerated_slice:%s:%s:u%d' % (spec['fam'], spec['impl'], spec['u']))
 
 
 def replay(case, ctx):
